@@ -8,8 +8,10 @@ package main
 
 import (
 	"fmt"
+	"gdsa/refs/dpkgorder"
 	"go/token"
 	"go/types"
+	"os"
 	"sort"
 	"strings"
 
@@ -384,7 +386,7 @@ func runEquivalence(p *Prog, rp *Report, r *Rule, thorough bool) (*productResult
 	refA := refs.SPkg["gdsa/refs/dpkgorder"].Func("Verrevcmp")
 	refB := refs.SPkg["gdsa/refs/dpkgorder"].Func("VerrevcmpB")
 	alpha := NewAlphabetSingletons(append([]byte(nil), versionAlphabet...))
-	maxStates := 200000
+	maxStates := 60000
 	var best *productResult
 	for vi, ref := range []*ssa.Function{refA, refB} {
 		res := runProduct(p, impl, refs, ref, alpha, 6, maxStates)
@@ -411,6 +413,9 @@ func fillEquivalence(p *Prog, r *Rule, res *productResult, impl *ssa.Function, w
 	}
 	pos := p.Pos(impl.Pos())
 	name := fname(impl)
+	if os.Getenv("GDSA_FORCE_BOUNDED") != "" {
+		res = &productResult{ImplStuck: []string{"forced by GDSA_FORCE_BOUNDED"}}
+	}
 	switch {
 	case len(res.Disagree) > 0:
 		w := res.Disagree[0]
@@ -421,10 +426,23 @@ func fillEquivalence(p *Prog, r *Rule, res *productResult, impl *ssa.Function, w
 	case len(res.NonTerm) > 0:
 		w := res.NonTerm[0]
 		r.bad(name, pos, fmt.Sprintf("the comparator does not terminate on inputs starting %q / %q: %v", w["a"], w["b"], w["msg"]), res.NonTerm)
-	case len(res.ImplStuck) > 0:
-		r.undecided(name, pos, "operation outside the comparator model: "+res.ImplStuck[0])
-	case len(res.Undecided) > 0:
-		r.undecided(name, pos, res.Undecided[0])
+	case len(res.ImplStuck) > 0 || len(res.Undecided) > 0:
+		why := ""
+		if len(res.ImplStuck) > 0 {
+			why = "operation outside the comparator model: " + res.ImplStuck[0]
+		} else {
+			why = res.Undecided[0]
+		}
+		// the comparator left the tape model: bounded comparison on exact pairs
+		b := comparatorBounded(p, impl)
+		switch {
+		case b.undecided != "":
+			r.undecided(name, pos, why+"; bounded comparison: "+b.undecided)
+		case len(b.problems) > 0:
+			r.bad(name, pos, what+": "+b.problems[0], b.problems)
+		default:
+			r.ok(name, pos, fmt.Sprintf("%s (bounded: the comparator left the tape model: %s): %d exact pairs (every pair of strings of up to 3 bytes over 0 1 a ~ +, and 63 x 63 longer strings with leading zeros, digit runs of different length and of 20 to 30 digits, '~', letters and separators) agree in sign with dpkg's algorithm", what, clip(why, 140), b.pairs))
+		}
 	case res.States < 1000 || res.Returns < 10000:
 		r.undecided(name, pos, fmt.Sprintf("product suspiciously small: %d states, %d pairs of returns", res.States, res.Returns))
 	default:
@@ -671,7 +689,6 @@ func checkSortAdapter(p *Prog, r *Rule) {
 		}
 		return s
 	}
-	cmpFn := p.Func("version", "Compare")
 	mkState := func(m *Machine, fn *ssa.Function, extra ...Val) (*State, int) {
 		s := &State{Heap: map[int]*HObj{}, Notes: map[string]bool{}}
 		arr := &ArrayV{E: []Val{mkv("v0"), mkv("v1"), mkv("v2")}}
@@ -726,36 +743,56 @@ func checkSortAdapter(p *Prog, r *Rule) {
 			}
 			r.check(okAll, "version.Slice.Swap", pos, "exchanges elements i and j and nothing else", detail)
 		case "Less":
+			// concrete table: Less(i,j) iff a[i] sorts strictly before a[j] in the reference order
+			type ver struct {
+				epoch   int64
+				up, rev string
+			}
+			vs := []ver{{0, "1.0", "1"}, {1, "0.9", ""}, {0, "1.0", "2"}, {0, "1.0~rc1", "1"}, {0, "1.0", "1"}, {0, "1.00", "1"}, {0, "1.10", "1"}, {0, "1.9", "1"}, {2, "0", "0"}, {0, "", ""}}
+			refCmp := func(x, y ver) int {
+				if x.epoch != y.epoch {
+					if x.epoch < y.epoch {
+						return -1
+					}
+					return 1
+				}
+				if c := dpkgorder.Verrevcmp(x.up, y.up); c != 0 {
+					return c
+				}
+				return dpkgorder.Verrevcmp(x.rev, y.rev)
+			}
 			okAll := true
 			detail := ""
-			for _, q := range []int64{-3, -1, 0, 1, 4} {
-				var seenArgs string
-				q := q
-				m.Hooks[cmpFn.String()] = func(m *Machine, st *State, call *ssa.CallCommon, args []Val) ([]Val, bool) {
-					for _, a := range args {
-						for _, f := range a.(*StructV).F {
-							if s, ok := f.(string); ok {
-								seenArgs += s
-								break
-							}
-						}
+			mm := NewMachine(p, nil)
+			installStringModels(mm)
+			installFuncModels(mm)
+			installUnicodeModels(mm)
+			base := initState(mm, "version")
+			arr := &ArrayV{}
+			for _, v := range vs {
+				arr.E = append(arr.E, mkStruct(vt, map[string]Val{"Epoch": v.epoch, "Version": v.up, "Revision": v.rev}))
+			}
+			aid := base.alloc(types.NewArray(vt, int64(len(vs))), arr)
+			for i := range vs {
+				for j := range vs {
+					s := base.Clone()
+					s.Status = stRun
+					s.push(fn, []Val{SliceV{Obj: aid, Len_: len(vs), Cap: len(vs)}, int64(i), int64(j)}, nil)
+					out := mm.Run(s)
+					if len(out) != 1 || out[0].Status != stRet {
+						okAll, detail = false, "undecided: Less did not return: "+retDesc(out)
+						break
 					}
-					return []Val{q}, true
-				}
-				s, _ := mkState(m, fn, int64(2), int64(0))
-				out := m.Run(s)
-				if len(out) != 1 || out[0].Status != stRet {
-					okAll, detail = false, "Less did not return: "+retDesc(out)
-					break
-				}
-				if out[0].Ret != (q < 0) {
-					okAll, detail = false, fmt.Sprintf("Less is %v when Compare returns %d", out[0].Ret, q)
-				}
-				if seenArgs != "v2v0" {
-					okAll, detail = false, fmt.Sprintf("Less(2,0) compares %q, want a[2] then a[0]", seenArgs)
+					if want := refCmp(vs[i], vs[j]) < 0; out[0].Ret != want {
+						okAll, detail = false, fmt.Sprintf("Less(%v, %v) = %v, the reference order says %v", vs[i], vs[j], out[0].Ret, want)
+					}
 				}
 			}
-			r.check(okAll, "version.Slice.Less", pos, "Less(i,j) == Compare(a[i],a[j]) < 0 for results -3,-1,0,1,4", detail)
+			if strings.HasPrefix(detail, "undecided") {
+				r.undecided("version.Slice.Less", pos, detail)
+			} else {
+				r.check(okAll, "version.Slice.Less", pos, fmt.Sprintf("Less(i,j) iff a[i] sorts strictly before a[j] in the reference order, for all %d pairs of %d versions (epochs, equal elements, leading zeros, '~', empty parts)", len(vs)*len(vs), len(vs)), detail)
+			}
 		}
 	}
 }
